@@ -38,7 +38,7 @@ class BodyError(Exception):
 @st.composite
 def configs(draw, tier):
     ntasks = draw(st.integers(1, 3))
-    tasks = [[draw(st.sampled_from(["return", "return", "raise"])) for _ in range(draw(st.integers(1, 3)))]
+    tasks = [[draw(st.sampled_from(["return", "return", "raise", "raise-plain"])) for _ in range(draw(st.integers(1, 3)))]
              for _ in range(ntasks)]
     cancel = draw(st.one_of(st.none(), st.none(), st.tuples(st.integers(0, ntasks - 1), st.integers(1, 6))))
     return {"kind": draw(st.sampled_from(["gen", "gen", "class"])), "suppress": draw(st.booleans()),
@@ -80,7 +80,7 @@ def run_config(case, impl, choices=None, default="rr"):
             note("exit", exc)
             for _ in range(case["exit_susp"]):
                 await ctx.suspend(("exit", gid))
-            if not case["suppress"] or not isinstance(exc, BodyError):
+            if not case["suppress"] or not isinstance(exc, Exception):
                 raise
         else:
             note("exit", None)
@@ -99,7 +99,7 @@ def run_config(case, impl, choices=None, default="rr"):
             note("exit", ev)
             for _ in range(case["exit_susp"]):
                 await ctx.suspend(("exit", "class"))
-            return bool(case["suppress"] and isinstance(ev, BodyError))
+            return bool(case["suppress"] and isinstance(ev, Exception))
 
     if case["kind"] == "gen":
         maker = (a.contextmanager if impl == "a" else contextlib.asynccontextmanager)(gen_manager)
@@ -119,10 +119,11 @@ def run_config(case, impl, choices=None, default="rr"):
         try:
             for _ in range(case["body_susp"]):
                 await ctx.suspend(("body", task, call))
-            if outcome == "raise":
+            if outcome in ("raise", "raise-plain"):
                 if len(inside) > 1:
                     flags["disturbed"] = True
-                errors[key] = BodyError(f"{task}:{call}")
+                # "raise-plain": an instance of exactly Exception, not of a subclass
+                errors[key] = BodyError(f"{task}:{call}") if outcome == "raise" else Exception(f"{task}:{call}")
                 raise errors[key]
             note("body-end")
             return ("result", task, call)
@@ -137,13 +138,13 @@ def run_config(case, impl, choices=None, default="rr"):
             current[name] = c
             try:
                 value = await fn(name, c, outcome)
-            except BodyError as exc:
-                results[(name, c)] = ("raise", exc)
             except Cancel as exc:
                 results[(name, c)] = ("cancelled", exc)
                 if len(inside) >= 1:
                     flags["disturbed"] = True
                 raise
+            except Exception as exc:
+                results[(name, c)] = ("raise", exc)
             else:
                 results[(name, c)] = ("return", value)
 
@@ -247,8 +248,8 @@ def small_configs():
     for kind in ("gen", "class"):
         for suppress in (False, True):
             for enter_susp, exit_susp, body_susp in ((1, 0, 1), (0, 1, 1), (1, 1, 0), (1, 1, 1)):
-                for tasks in ([["return"], ["raise"]], [["raise", "return"], ["return"]],
-                              [["return", "raise"], ["raise"]]):
+                for tasks in ([["return"], ["raise"]], [["raise-plain", "return"], ["return"]],
+                              [["return", "raise"], ["raise-plain"]]):
                     out.append({"kind": kind, "suppress": suppress, "enter_susp": enter_susp,
                                 "exit_susp": exit_susp, "body_susp": body_susp, "tasks": tasks,
                                 "cancel": None, "choices": []})
